@@ -109,6 +109,15 @@ def main(argv=None):
             return 1
         print('not reproduced: file is structurally valid')
         return 0
+    if kind == 'compo-spelling':
+        from . import deck as dk
+        from .props import c09
+        pbs = c09.spelling_problems(dk.from_json(case['deck_model']), t4)
+        if pbs:
+            print('REPRODUCED: ' + '; '.join(pbs[:4]))
+            return 1
+        print('not reproduced: compositions follow the density values')
+        return 0
     if kind == 'bc':
         from . import deck as dk
         from .props import c16
